@@ -34,7 +34,14 @@ def _jobs_store_family(oracles, family_untimed, family_timed, tier, stores_untim
             continue
         n = 3 if q else (3 if s == "RPRFS" else 4)
         jobs.append(m1(s, family_untimed, n, 2 if q else 3, oracles, 12 if q else 60))
+    if q and "RPRFS" in stores_untimed:
+        jobs.append(m1("RPRFS", family_untimed, 3, 0, oracles, 12, R2=0, RMAX=1, S=0, name=f"M1/RPRFS/{family_untimed}/N3K0-one-filtered"))
     for s in stores_timed:
+        if q and s.startswith("FLEET"):
+            # concrete fleet timing makes these cheap: richer shape
+            jobs.append(m1(s, family_timed, 2, 2, oracles, 20, R2=1, USE=True, S=2))
+            jobs.append(m1(s, family_timed, 3, 0, oracles, 14, R2=2, USE=True, S=0, name=f"M1/{s}/{family_timed}/N3K0-use"))
+            continue
         if q:
             jobs.append(m1(s, family_timed, 2, 1, oracles, 20, R2=1, USE=False, S=1))
             if s.startswith("BUF") and family_timed != "space":
@@ -255,6 +262,9 @@ def fan_cfgs(tier):
     C["fanin-fa"] = dict(n_src=2, n_out=1, n_items=2, w=1)
     C["line-srcfa"] = dict(n_src=1, n_out=1, n_items=3, w=1, src_out_sel="FIRST_AVAILABLE")
     C["fanin-fa-srcfa"] = dict(n_src=2, n_out=1, n_items=2, w=1, src_out_sel="FIRST_AVAILABLE", in_delay="sym-last", out_delay=0, sym=("iat",))
+    C["fanout-sink-fanin"] = dict(n_src=1, n_out=2, n_items=3, w=2, out_cap=1, sink_fanin=True)
+    C["fanout-sink-fanin-tie"] = dict(n_src=2, n_out=2, n_items=2, w=2, out_cap=2, sink_fanin=True, same_iat=True, sym=("iat", "pd"), out_delay=0)
+    C["line-zero-iat"] = dict(n_src=1, n_out=1, n_items=3, w=1, iat_lo=0)
     C["fanin-fa-indelay"] = dict(n_src=2, n_out=1, n_items=2, w=1, in_delay="sym-last", out_delay=0, sym=("iat",))
     C["fanin-fa-w2-tie"] = dict(n_src=2, n_out=1, n_items=2, w=2, same_iat=True, per_item_pd=True)
     C["fanout-fa"] = dict(n_src=1, n_out=2, n_items=n3, w=1, out_cap=1)
@@ -277,6 +287,10 @@ def fan_cfgs(tier):
     return C
 
 
+def pk_jobs_late(pid, tier, names, extra_kw=None):
+    return pk_jobs(pid, tier, names=names, extra_kw=extra_kw)
+
+
 def fan_jobs(pid, tier, names=None, extra_kw=None, budget=None):
     C = fan_cfgs(tier)
     jobs = []
@@ -291,6 +305,18 @@ def fan_jobs(pid, tier, names=None, extra_kw=None, budget=None):
     return jobs
 
 
+def srcfan_jobs(pid, tier):
+    J = []
+    for name, kw in (("fa", dict()), ("fa-one-sink", dict(sink_fanin=True)), ("rr", dict(src_sel="ROUND_ROBIN")), ("generator", dict(src_sel="generator", n_items=3)),
+                     ("nonblocking-fa", dict(blocking=False))):
+        kw = dict(kw)
+        kw["props"] = (pid,)
+        if tier != "quick":
+            kw["n_items"] = 5 if "n_items" not in kw else 4
+        J.append({"name": "M2/srcfan/" + name, "spec": ("vfy.m2s", "srcfan", kw), "budget_s": 12 if tier == "quick" else 60, "bounds": str(kw), "validate_every": 10})
+    return J
+
+
 M2_EXPL = ("Bounded symbolic simulation: a small factory is built from the real Source/Machine/Sink/Buffer (and other) classes on the real SimPy kernel; "
            "inter-arrival, processing and buffer delays (and the end time) are z3 reals, so every ordering of same-instant and nearby events that some "
            "delay vector can produce is explored (heapq and the stores compare symbolic times through the solver). The store inside every edge is wrapped on "
@@ -300,7 +326,7 @@ PROPS["C03"] = {
     "explanation": M2_EXPL + "after every instant each item identity is in exactly one place according to the ledger, the ledger agrees with the real contents of every "
                    "edge and node (item_in_process / worker item_to_put), generated = at sources + in edges + in nodes + discarded + received, and with finite "
                    "input under fair policies everything is received or counted as discarded at quiescence. The C01 capacity monitor runs on every edge.",
-    "jobs": lambda tier: fan_jobs("C03", tier),
+    "jobs": lambda tier: fan_jobs("C03", tier) + srcfan_jobs("C03", tier),
     "required_witnesses": ["C03:checked", "C03:quiescence-checked"],
     "nontrivial_witnesses": ["complete"],
     "twin": lambda tier: ("vfy.m2s", "fan", dict(props=("C03",), n_src=1, n_out=1, n_items=2, twin=True)),
@@ -336,7 +362,7 @@ PROPS["C10"] = {
     "explanation": M2_EXPL + "token-based observer at the end of every instant: a node with a free worker has a retrieval request on every permitted in-edge, none of them granted-but-unused, none "
                    "pending while an item is available; a blocking node with a finished item requests space on every permitted out-edge and none has room; no node leaves more than one request per "
                    "edge or a granted reservation behind; at quiescence nothing is stranded.",
-    "jobs": lambda tier: fan_jobs("C10", tier),
+    "jobs": lambda tier: fan_jobs("C10", tier) + srcfan_jobs("C10", tier),
     "required_witnesses": ["C10:input-side-checked", "C10:output-side-checked", "C10:quiescence-checked"],
     "nontrivial_witnesses": ["complete"],
     "twin": lambda tier: ("vfy.m2s", "fan", dict(props=("C10",), n_src=2, n_out=1, n_items=1, twin=True)),
@@ -347,7 +373,7 @@ PROPS["C10"] = {
 PROPS["C15"] = {
     "explanation": M2_EXPL + "the edge on which every item is pulled/pushed is compared with the policy's answers (ROUND_ROBIN k mod n, constant index, user callable / generator whose answers "
                    "the solver chooses), FIRST_AVAILABLE must not cancel a granted request on a lower-index edge in the round in which it commits, and the recorded selection history must equal the routing.",
-    "jobs": lambda tier: fan_jobs("C15", tier, names=["fanin-fa", "fanin-fa-indelay", "fanin-fa-w2-tie", "fanout-fa", "fanout-w2-tie", "nb-machine-fa", "nb-machine-rr", "rr-in", "rr-out", "rr-both", "idx-out", "callable-in", "generator-out", "fanout3-w3"]) + [
+    "jobs": lambda tier: fan_jobs("C15", tier, names=["fanin-fa", "fanin-fa-indelay", "fanin-fa-w2-tie", "fanout-fa", "fanout-w2-tie", "nb-machine-fa", "nb-machine-rr", "rr-in", "rr-out", "rr-both", "idx-out", "callable-in", "generator-out", "fanout3-w3", "fanout-sink-fanin", "fanout-sink-fanin-tie", "line-srcfa", "fanin-fa-srcfa"]) + srcfan_jobs("C15", tier) + pk_jobs_late("C15", tier, ["r11-rr2", "r13-nonblocking-split", "r12-fa2"]) + [
         {"name": "M0/selectors", "spec": ("vfy.m0", "selector_scenario", dict(nmax=4 if tier == "quick" else 6)), "budget_s": 20 if tier == "quick" else 60, "bounds": "RoundRobin_edge_selector and _get_*_edge_index of all node classes with out-of-range answers"}],
     "required_witnesses": ["C15:routing-checked", "C15:history-checked", "C15:range-checked"],
     "nontrivial_witnesses": ["complete"],
@@ -373,7 +399,7 @@ PROPS["C18"] = {
     "explanation": M2_EXPL + "after finalisation at symbolic T: generated/processed/discarded/received counters equal the ledger counts; every edge's time-averaged occupancy is the opaque quotient "
                    "num/den with den == T and num == the integral of ledger occupancy (sum over items of residence, linear in the symbolic times); total_cycle_time equals the sum of reception - creation; "
                    "timestamps are non-decreasing along each route.",
-    "jobs": lambda tier: fan_jobs("C18", tier, names=["line-w1", "line-w2-per-item", "line-indelay", "fanin-fa", "fanout-fa", "nb-machine-fa", "nb-source-idx", "idx-out", "rr-out"], extra_kw={"until": "sym"}),
+    "jobs": lambda tier: fan_jobs("C18", tier, names=["line-w1", "line-w2-per-item", "line-indelay", "line-zero-iat", "fanin-fa", "fanout-fa", "nb-machine-fa", "nb-source-idx", "idx-out", "rr-out"], extra_kw={"until": "sym"}),
     "required_witnesses": ["C18:counters-checked", "C18:cycle-time-checked", "C18:time-average-checked"],
     "nontrivial_witnesses": ["complete"],
     "twin": lambda tier: ("vfy.m2s", "fan", dict(props=("C18",), n_src=1, n_out=1, n_items=1, until="sym", twin=True)),
@@ -501,6 +527,10 @@ def pk_cfgs(tier):
     C["r111-itemdelay-srcfa"] = dict(recipe=(1, 1, 1), n_pallets=2, sym=("ii",), item_delay="sym-last", comb_only=True, src_sel="FIRST_AVAILABLE")
     C["r12-srcfa"] = dict(recipe=(1, 2), n_pallets=2, src_sel="FIRST_AVAILABLE")
     C["r12-lifo-items"] = dict(recipe=(1, 2), n_pallets=2, sym=("ii", "pd"), item_mode="LIFO", item_cap=3, comb_only=True)
+    C["r13-cap1"] = dict(recipe=(1, 3), n_pallets=2, item_cap=1, sym=("ii", "pd"))
+    C["r12-splitq1"] = dict(recipe=(1, 2), n_pallets=2, split_quantity=1, sym=("ii",))
+    C["no-combiner-rr"] = dict(recipe=(1,), n_pallets=3, no_combiner=True, split_out=2, split_sel="ROUND_ROBIN", out_delay="sym", sym=("ip", "sd"))
+    C["r12-blocked-out"] = dict(recipe=(1, 2), n_pallets=3, comb_only=True, out_delay="sym", mid_cap=1, sym=("ip", "pd"))
     C["r12-comb-only"] = dict(recipe=(1, 2), n_pallets=2, comb_only=True, out_delay="sym")
     if not q:
         C["r122"] = dict(recipe=(1, 2, 2), n_pallets=2, sym=("ii", "pd"))
@@ -535,18 +565,20 @@ PROPS["C16"] = {
     "outside": "recipe entries 0 (the combiner crashes on them: not a documented use), more than 3 in-edges",
 }
 
-# the pallet scenarios also serve C03 / C08 / C09 / C17 / C18
+# the pallet scenarios also serve C03 / C08 / C09 / C10 / C17 / C18
+_c10_jobs = PROPS["C10"]["jobs"]
+PROPS["C10"]["jobs"] = lambda tier: _c10_jobs(tier) + pk_jobs("C10", tier, names=["r11", "r12", "r13-cap1", "r111", "r11-rr2"])
 _c09_jobs = PROPS["C09"]["jobs"]
-PROPS["C09"]["jobs"] = lambda tier: _c09_jobs(tier) + pk_jobs("C09", tier, names=["r12-nonblocking", "r13-nonblocking-split", "r11"])
+PROPS["C09"]["jobs"] = lambda tier: _c09_jobs(tier) + pk_jobs("C09", tier, names=["r12-nonblocking", "r13-nonblocking-split", "r11"]) + srcfan_jobs("C09", tier)
 _c18_jobs = PROPS["C18"]["jobs"]
 PROPS["C18"]["jobs"] = lambda tier: _c18_jobs(tier) + pk_jobs("C18", tier, names=["r11", "r12", "r12-comb-only"], extra_kw={"until": "sym"})
 _c03_jobs = PROPS["C03"]["jobs"]
 PROPS["C03"]["jobs"] = lambda tier: _c03_jobs(tier) + pk_jobs("C03", tier, names=["r11", "r12", "r11-rr2", "r12-nonblocking", "r12-comb-only", "r11-lifo-mid"])
 _c08_jobs = PROPS["C08"]["jobs"]
-PROPS["C08"]["jobs"] = lambda tier: _c08_jobs(tier) + pk_jobs("C08", tier, names=["r11", "r12", "r111", "r11-rr2", "r11-split-in-idx"])
+PROPS["C08"]["jobs"] = lambda tier: _c08_jobs(tier) + pk_jobs("C08", tier, names=["r11", "r12", "r111", "r11-rr2", "r11-split-in-idx", "r12-blocked-out", "no-combiner-rr"])
 PROPS["C08"]["required_witnesses"] = PROPS["C08"]["required_witnesses"] + ["C08:combiner-residence-checked"]
 _c17_jobs = PROPS["C17"]["jobs"]
-PROPS["C17"]["jobs"] = lambda tier: _c17_jobs(tier) + pk_jobs("C17", tier, names=["r11", "r12", "r11-rr2", "r11-rr2-blocked", "r12-fa2"], extra_kw={"until": "sym"}) + pk_jobs(
+PROPS["C17"]["jobs"] = lambda tier: _c17_jobs(tier) + pk_jobs("C17", tier, names=["r11", "r12", "r11-rr2", "r11-rr2-blocked", "r12-fa2", "no-combiner-rr"], extra_kw={"until": "sym"}) + pk_jobs(
     "C17", tier, names=["r11"], extra_kw={"until": "sym", "setup": 1})
 PROPS["C17"]["required_witnesses"] = PROPS["C17"]["required_witnesses"] + ["C17:finalised@Splitter", "C17:finalised@Combiner", "selftest-row"]
 _c17_jobs2 = PROPS["C17"]["jobs"]
